@@ -1,20 +1,25 @@
 (* Eco/Cran/Version.v — model of pkg/ecosystem/cran/version.go (definitions only). *)
-From Verif.Base Require Import Bytes GoNum Ord.
+From Verif.Base Require Import Bytes GoNum.
+From Verif.Eco Require Import VLayer.
 Local Open Scope N_scope.
 
-Record ver := { comps : list Z; orig : bytes }.
+Definition core := list Z.
 
-(* versionPattern ^(\d+(?:[.-]\d+)+)$ followed by the per-component MaxInt check *)
-Definition parse (s : bytes) : option ver :=
-  let t := trim_space s in
+(* versionPattern ^(\d+(?:[.-]\d+)+)$ on the trimmed text, then the per-component MaxInt check *)
+Definition parse_core (t : bytes) : option core :=
   let parts := split_c "."%char (replace_c "-"%char "."%char t) in
   if (2 <=? length parts)%nat
      && forallb nonempty_digits parts
      && forallb (fun p => digits_val p <? two63) parts
-  then Some {| comps := map (fun p => Z.of_N (digits_val p)) parts; orig := s |}
+  then Some (map (fun p => Z.of_N (digits_val p)) parts)
   else None.
 
-Definition show (v : ver) : bytes := orig v.
-
 (* common components left to right, then the longer one is greater *)
-Definition cmp (a b : ver) : comparison := lex_short Z.compare (comps a) (comps b).
+Definition cmp_core (a b : core) : comparison := lex_short Z.compare a b.
+
+Definition raw_orig := true.
+
+Definition ver := VLayer.ver core.
+Definition parse : bytes -> option ver := VLayer.parse parse_core raw_orig.
+Definition cmp : ver -> ver -> comparison := VLayer.cmp cmp_core.
+Definition show : ver -> bytes := VLayer.show.
